@@ -169,6 +169,8 @@ def run(ctx):
     if not any(True for _ in find(gid.body, "loop")) and not any(True for _ in find(gid.body, "while")):
         ctx.report(r_dup, "generate_id:no-retry", "Storable::generate_id no longer retries when the generated id already exists", gid.file, gid.line)
 
+    compact_rule(ctx, syn)
+
     # ---------------- REIDX
     r_re = ctx.rule("C03.REIDX", "reindex(): every id map is remapped with the gap table of its own store, under the same emptiness guard; gaps()/Handle::reindex agree on the gap convention; indices mentioning a remapped handle type are remapped")
     rx = syn.fn("reindex", self_ty="AnnotationStore")
@@ -250,3 +252,107 @@ def run(ctx):
         r_re.hit("cover:" + f["name"])
         if f["name"] not in assigned:
             ctx.report(r_re, "not-remapped:" + f["name"], "reindex() renumbers annotations/resources/datasets but leaves %s (%s) untouched: it still holds the old handles" % (f["name"], t), rx.file, rx.line)
+
+
+# ---------------------------------------------------------------------- COMPACT
+def compact_rule(ctx, syn):
+    """reindex(): gaps(), the store compaction, Handle::reindex, IdMap::reindex and RelationMap::reindex,
+    evaluated from their syntax trees on every liveness pattern of a 6-slot store, agree on where each
+    live item ends up"""
+    import itertools
+    from synq import find, unparse, strip
+    from formula import Evaluator, Unknown, Panic, StructVal, SInt, some, is_some, ok
+    from props.c10 import closure_call
+    r = ctx.rule("C03.COMPACT", "after compaction every public id resolves to the item that carries it: gaps(), the store's reindex, Handle::reindex and IdMap::reindex agree on the new handle of every live item (all 64 liveness patterns of a 6-slot store)")
+
+    def fn(name, file, pred):
+        c = [f for f in syn.fns if f.name == name and f.file == file and f.body is not None and pred(f)]
+        return c[0] if len(c) == 1 else None
+    f_gaps = fn("gaps", "src/store.rs", lambda f: (f.trait or "").startswith("ReindexStore"))
+    f_sre = fn("reindex", "src/store.rs", lambda f: (f.trait or "").startswith("ReindexStore"))
+    f_hre = fn("reindex", "src/types.rs", lambda f: f.in_trait == "Handle")
+    f_idre = fn("reindex", "src/store.rs", lambda f: (f.self_ty or "").startswith("IdMap"))
+    for nm, f in (("ReindexStore::gaps", f_gaps), ("ReindexStore::reindex", f_sre), ("Handle::reindex", f_hre), ("IdMap::reindex", f_idre)):
+        if f is None:
+            ctx.anchor_missing(r, nm)
+            return
+        ctx.functions_analysed.add(f.qual)
+    hooks = {}
+    hooks["handle"] = lambda ev, recv, args, node, env: some(recv["h"]) if isinstance(recv, StructVal) and recv.tyname == "Item" else NotImplemented
+    hooks["expect"] = lambda ev, recv, args, node, env: recv[1] if is_some(recv) else NotImplemented
+    hooks["as_usize"] = lambda ev, recv, args, node, env: (recv["v"] if isinstance(recv, StructVal) and recv.tyname == "Cell" else recv) if isinstance(recv, (int, StructVal)) else NotImplemented
+    hooks["with_handle"] = lambda ev, recv, args, node, env: StructVal("Item", {"h": args[0], "id": recv["id"]}) if isinstance(recv, StructVal) and recv.tyname == "Item" else NotImplemented
+    hooks["call:Self::new"] = lambda ev, recv, args, node, env: args[0]
+    hooks["call:HandleType::new"] = lambda ev, recv, args, node, env: args[0]
+    hooks["call:Vec::new"] = lambda ev, recv, args, node, env: []
+    hooks["call:Vec::with_capacity"] = lambda ev, recv, args, node, env: []
+    hooks["values_mut"] = lambda ev, recv, args, node, env: list(recv.values()) if isinstance(recv, dict) and not isinstance(recv, StructVal) else NotImplemented
+
+    def h_map(ev, recv, args, node, env):
+        if isinstance(recv, list) and args and isinstance(args[0], tuple) and args[0][0] == "closure":
+            return [closure_call(ev, args[0], [x], env) for x in recv]
+        return NotImplemented
+    hooks["map"] = h_map
+
+    def h_reindex(ev, recv, args, node, env):
+        h = recv["v"] if isinstance(recv, StructVal) and recv.tyname == "Cell" else recv
+        if isinstance(h, int) and not isinstance(h, bool):
+            sub = Evaluator(hooks=hooks)
+            return sub.run_body(f_hre.body, {"self": h, "gaps": args[0]})
+        return NotImplemented
+    hooks["reindex"] = h_reindex
+    reported = set()
+    n = 0
+    N = 6
+    for mask in range(1 << N):
+        live = [i for i in range(N) if mask & (1 << i)]
+        store = [StructVal("Item", {"h": i, "id": "id%d" % i}) if i in live else None for i in range(N)]
+        want = dict((i, k) for k, i in enumerate(live))
+        key_pat = "".join("x" if i in live else "." for i in range(N))
+        try:
+            ev = Evaluator(hooks=hooks)
+            gaps = ev.run_body(f_gaps.body, {"self": [some(x) if x is not None else None for x in store]})
+            gaps = [(a, SInt(b)) for a, b in gaps]
+            ev = Evaluator(hooks=hooks)
+            newstore = ev.run_body(f_sre.body, {"self": [some(x) if x is not None else None for x in store], "gaps": gaps})
+            cells = dict(("id%d" % i, StructVal("Cell", {"v": i})) for i in live)
+            ev = Evaluator(hooks=hooks)
+            ev.run_body(f_idre.body, {"self": StructVal("IdMap", {"data": cells}), "gaps": gaps})
+        except (Unknown, Panic) as e:
+            if "unevaluated" not in reported:
+                reported.add("unevaluated")
+                ctx.report(r, "unevaluated", "the compaction functions could not be evaluated (%s, liveness pattern %s): that ids still resolve to their items after reindex() is not established" % (e, key_pat), f_idre.file, f_idre.line)
+            continue
+        n += 1
+        r.obligations += 1
+        okay = True
+        if live:
+            present = [s_ for s_ in newstore if is_some(s_)] if isinstance(newstore, list) else None
+            if present is None or len(present) != len(live):
+                okay = False
+                what = "the compacted store holds %s items for %d live items" % (len(present) if present is not None else "?", len(live))
+            else:
+                for pos, slot in enumerate(newstore):
+                    item = slot[1] if is_some(slot) else None
+                    if item is None:
+                        continue  # a trailing tombstone that no gap entry describes may stay
+                    if item["h"] != pos:
+                        okay = False
+                        what = "the item at position %d of the compacted store carries handle %s" % (pos, item["h"] if item else None)
+                        break
+                    if int(cells[item["id"]]["v"]) != pos:
+                        okay = False
+                        what = "the id map sends %s to handle %s but the item carrying it is now at %d" % (item["id"], cells[item["id"]]["v"], pos)
+                        break
+        if okay:
+            r.discharged += 1
+        else:
+            ngaps = len(gaps)
+            k2 = "mismatch:%s" % ("one-gap" if ngaps == 1 else "several-gaps")
+            if k2 not in reported:
+                reported.add(k2)
+                ctx.report(r, k2, "reindex() on a store with liveness pattern %s (x live, . removed; gap table %s): %s - a public id resolves to a different item after compaction" % (key_pat, [(a, int(b)) for a, b in gaps], what), f_idre.file, f_idre.line, {"pattern": key_pat})
+        if mask in (0b101101, 0b111111, 0b010110):
+            r.hit("pattern:" + key_pat, sample={"liveness": key_pat, "gaps": [(a, int(b)) for a, b in gaps], "idmap": dict((k, int(v["v"])) for k, v in cells.items())})
+    r.hit("patterns", sample={"slots": N, "patterns": n})
+    ctx.floor(r, n, 64, "liveness patterns")
